@@ -97,15 +97,21 @@ def main(argv):
         r = run_one(m, runs, budget)
         caught = r["exit"] == 1
         expected = m.get("expected", "caught")
-        status = "CAUGHT" if caught else ("missed (expected: outside the property as checked)" if expected != "caught" else "MISSED")
-        if not caught and expected == "caught":
-            missed += 1
+        if expected == "pass":
+            # a behaviour-preserving change: the check must stay silent
+            status = "SILENT" if r["exit"] == 0 else "FALSE-ALARM"
+            if r["exit"] != 0:
+                missed += 1
+        else:
+            status = "CAUGHT" if caught else ("missed (expected: outside the property as checked)" if expected != "caught" else "MISSED")
+            if not caught and expected == "caught":
+                missed += 1
         print(f"{status:8s} {r['id']:34s} {r['property']} exit={r['exit']} {r['wall']}s  {m.get('what', '')[:90]}", flush=True)
         for l in r["lines"][:4]:
             print("         ", l[:260], flush=True)
         for l in r["tail"]:
             print("         ", l[:400], flush=True)
-        results.append(dict(r, caught=caught, what=m.get("what", ""), source=m["source"]))
+        results.append(dict(r, caught=caught, what=m.get("what", ""), source=m["source"], expected=expected))
         if m["source"] == "seeded":
             sid = m["id"].split("@")[0]
             json.dump({"command": f"run.py selftest-sensitivity --only {sid}  (patch applied to a scratch copy of /repo/src, quick tier of {m['property']} aimed at it via VERIF_REPO_SRC)",
@@ -113,5 +119,8 @@ def main(argv):
                       open(os.path.join(HERE, "seeded", sid, "last_check.json"), "w"), indent=1)
     os.makedirs(os.path.join(HERE, "out"), exist_ok=True)
     json.dump(results, open(os.path.join(HERE, "out", "sensitivity.json"), "w"), indent=1)
-    print(f"sensitivity: {sum(r['caught'] for r in results)}/{len(results)} caught, {missed} unexpected misses")
+    harmful = [r for r in results if r.get("expected") != "pass"]
+    benign = [r for r in results if r.get("expected") == "pass"]
+    print(f"sensitivity: {sum(r['caught'] for r in harmful)}/{len(harmful)} harmful changes caught, "
+          f"{sum(r['exit'] == 0 for r in benign)}/{len(benign)} benign changes silent, {missed} unexpected outcomes")
     return 1 if missed else 0
